@@ -99,7 +99,9 @@ register(Contract(
     key=FSH + "__process_file_scan", properties=["C14", "C11", "C15"],
     ghost=CALLS,
     requires=[f"{SP_INDEX} == 0", SCAN_CTX, f"{SP_LINES} is not calls", f"{TOKS} is not {REPORTED}",
-              f"{TOKS} is not {SP_LINES}"],
+              f"{TOKS} is not {SP_LINES}",
+              # the pragma token (if any) holds lines stored by PragmaExtension.look_for_pragmas
+              f"implies({HAS_PRAGMA}, " + "forall_val(lambda k: implies(k in actual_tokens[len(actual_tokens) - 1]._PragmaToken__pragma_lines, k != 0 and pragma_line_ok(actual_tokens[len(actual_tokens) - 1]._PragmaToken__pragma_lines[k], k > 0)))" + ")"],
     calls={
         "self.__plugins.compile_pragmas": (PM + "compile_pragmas", ["calls.append(('pragmas', scan_file, pragma_lines))"]),
         "self.__plugins.next_token": (PM + "next_token", ["calls.append(('tok', context, token))"]),
@@ -108,7 +110,7 @@ register(Contract(
     ensures=[
         f"len(calls) == {BASE} + old({NP} + {NT} + len({SP_LINES})) + 1",
         # the pragma token is taken off the stream and compiled BEFORE any token is delivered; it is never delivered
-        f"implies(old({HAS_PRAGMA}), calls[{BASE}] == ('pragmas', next_file_name, old({TOKS}[len({TOKS}) - 1].pragma_lines)))",
+        f"implies(old({HAS_PRAGMA}), calls[{BASE}] == ('pragmas', next_file_name, old({TOKS}[len({TOKS}) - 1]._PragmaToken__pragma_lines)))",
         f"forall(lambda k: calls[{BASE} + old({NP}) + k] == ('tok', context, old({TOKS}[k])), 0, old({NT}))",
         f"forall(lambda k: calls[{BASE} + old({NP} + {NT}) + k] == ('line', context, k + 1, old({SP_LINES}[k]), k + 1 >= old(len({SP_LINES}))), 0, old(len({SP_LINES})))",
         f"calls[{BASE} + old({NP} + {NT} + len({SP_LINES}))] == ('done', context, old(len({SP_LINES})) + 1)",
@@ -125,7 +127,7 @@ register(Contract(
         f"and same_except('_FileSourceProvider__read_index')",
         f"len(actual_tokens) == old({NT})", f"forall(lambda k: actual_tokens[k] is old({TOKS}[k]), 0, len(actual_tokens))",
         f"len(calls) == {BASE} + old({NP}) + idx",
-        f"implies(old({HAS_PRAGMA}), calls[{BASE}] == ('pragmas', next_file_name, old({TOKS}[len({TOKS}) - 1].pragma_lines)))",
+        f"implies(old({HAS_PRAGMA}), calls[{BASE}] == ('pragmas', next_file_name, old({TOKS}[len({TOKS}) - 1]._PragmaToken__pragma_lines)))",
         f"forall(lambda k: calls[{BASE} + old({NP}) + k] == ('tok', context, actual_tokens[k]), 0, idx)",
         CKEEP, SCAN_CTX, f"{SP_INDEX} == 0", f"{SP_LINES} is old({SP_LINES})", f"actual_tokens is not {REPORTED}",
         f"len({SP_LINES}) == old(len({SP_LINES}))", f"forall(lambda k: {SP_LINES}[k] is old({SP_LINES}[k]), 0, len({SP_LINES}))",
